@@ -107,4 +107,101 @@ theorem walkParams_enc (ext : Bool) (gs : List (List Cap)) (hw : gs.all (wfGroup
         simp [walkParams, r, d3, tk, dr', gl, wc, ihh]
         try rw [if_neg (by omega), if_neg (by omega)]
 
+
+theorem wfGroups_iff (ext : Bool) (gs : List (List Cap)) :
+    wfGroups ext gs = true ↔ gs.all (wfGroup ext) = true ∧ (encParams ext gs).length < (if ext then 65536 else 256) := by
+  simp [wfGroups, wfGroup]
+
+theorem decodeOptional_enc (ext : Bool) (gs : List (List Cap)) (hw : wfGroups ext gs = true) :
+    decodeOptional (encOptional ext gs) = .ok gs.flatten := by
+  rw [wfGroups_iff] at hw
+  obtain ⟨hg, hl⟩ := hw
+  have wp := fun fuel h => walkParams_enc ext gs hg fuel h
+  have lp := length_le_encParams ext gs
+  cases ext with
+  | true =>
+    simp only [if_true] at hl
+    have r := rd16_be16 (encParams true gs).length hl (encParams true gs)
+    have d2 : List.drop 2 (be16 (encParams true gs).length ++ encParams true gs) = encParams true gs :=
+      List.drop_left' (by simp)
+    have w := wp ((encParams true gs).length + 1) (by omega)
+    simp only [encOptional, if_true]
+    generalize encParams true gs = p at *
+    have e : [255, 255] ++ be16 p.length ++ p = 255 :: 255 :: (be16 p.length ++ p) := by simp
+    rw [e]
+    simp [decodeOptional, r, d2, w]
+    rw [if_neg (by omega), if_neg (by omega)]
+  | false =>
+    simp only [if_false, Bool.false_eq_true] at hl
+    simp only [encOptional, if_false, Bool.false_eq_true]
+    by_cases h255 : (encParams false gs).length = 255
+    · have w := wp 256 (by omega)
+      cases gs with
+      | nil => simp [encParams] at h255
+      | cons g t =>
+        have e : encParams false (g :: t) = 2 :: groupLen g :: (g.flatMap encCapTLV ++ encParams false t) := by
+          simp [encParams, List.flatMap_cons, encGroup, groupLen]
+        rw [e] at h255 w ⊢
+        generalize (g.flatMap encCapTLV ++ encParams false t) = rest at *
+        have tk : List.take 255 (2 :: groupLen g :: rest) = 2 :: groupLen g :: rest :=
+          List.take_of_length_le (by omega)
+        simp only [List.length_cons] at h255
+        simp [decodeOptional, h255]
+        have tk' : List.take 253 rest = rest := List.take_of_length_le (by omega)
+        rw [tk']; simpa using w
+    · have w := wp ((encParams false gs).length + 1) (by omega)
+      generalize encParams false gs = p at *
+      simp [decodeOptional, h255, w]
+
+theorem encOptional_length_pos (ext : Bool) (gs : List (List Cap)) : 0 < (encOptional ext gs).length := by
+  cases ext <;> simp [encOptional]
+
+theorem decodeOpen_encG (ext : Bool) (myAs hold bgpId : Nat) (gs : List (List Cap))
+    (hf : wfFixed myAs hold bgpId = true) (hg : wfGroups ext gs = true) :
+    decodeOpen (encodeOpenG ext 4 myAs hold bgpId gs)
+      = .ok { version := 4, myAs := myAs, hold := hold, bgpId := bgpId, caps := gs.flatten } := by
+  simp only [wfFixed, Bool.and_eq_true, decide_eq_true_eq] at hf
+  obtain ⟨⟨h1, h2⟩, h3⟩ := hf
+  have ho := decodeOptional_enc ext gs hg
+  have hp := encOptional_length_pos ext gs
+  simp only [encodeOpenG, encFixed]
+  generalize encOptional ext gs = opt at *
+  have e : [4] ++ be16 myAs ++ be16 hold ++ be32 bgpId ++ opt
+      = 4 :: (be16 myAs ++ (be16 hold ++ (be32 bgpId ++ opt))) := by simp
+  rw [e]
+  have r1 := rd16_be16 myAs h1 (be16 hold ++ (be32 bgpId ++ opt))
+  have r2 := rd16_be16 hold h2 (be32 bgpId ++ opt)
+  have r3 := rd32_be32 bgpId h3 opt
+  have d1 : List.drop 1 (4 :: (be16 myAs ++ (be16 hold ++ (be32 bgpId ++ opt))))
+      = be16 myAs ++ (be16 hold ++ (be32 bgpId ++ opt)) := by simp
+  have d3 : List.drop 3 (4 :: (be16 myAs ++ (be16 hold ++ (be32 bgpId ++ opt))))
+      = be16 hold ++ (be32 bgpId ++ opt) := by simp [be16]
+  have d5 : List.drop 5 (4 :: (be16 myAs ++ (be16 hold ++ (be32 bgpId ++ opt))))
+      = be32 bgpId ++ opt := by simp [be16]
+  have d9 : List.drop 9 (4 :: (be16 myAs ++ (be16 hold ++ (be32 bgpId ++ opt)))) = opt := by simp [be16, be32]
+  have len : ¬ (4 :: (be16 myAs ++ (be16 hold ++ (be32 bgpId ++ opt)))).length < 10 := by
+    simp only [List.length_cons, List.length_append, be16_length, be32_length]; omega
+  simp only [decodeOpen, if_neg len, d1, d3, d5, d9, r1, r2, r3, ho]
+  simp
+
+/-- `caps.map (fun c => [c])` is the layout ExaBGP emits; flattening gives the capabilities back. -/
+theorem flatten_singletons (caps : List Cap) : (caps.map (fun c => [c])).flatten = caps := by
+  induction caps with
+  | nil => rfl
+  | cons c t ih => simp [ih]
+
+/-- an OPEN that has a wire form in ExaBGP's layout -/
+def wfOpen (o : OpenMsg) : Bool :=
+  decide (o.version = 4) && wfFixed o.myAs o.hold o.bgpId
+    && wfGroups (useExtended o.caps) (o.caps.map (fun c => [c]))
+
+theorem decodeOpen_encode (o : OpenMsg) (h : wfOpen o = true) : decodeOpen (encodeOpen o) = .ok o := by
+  simp only [wfOpen, Bool.and_eq_true, decide_eq_true_eq] at h
+  obtain ⟨⟨hv, hf⟩, hg⟩ := h
+  have := decodeOpen_encG (useExtended o.caps) o.myAs o.hold o.bgpId _ hf hg
+  rw [flatten_singletons] at this
+  simp only [encodeOpen, hv]
+  rw [this]
+  cases o; simp_all
+
 end Exa.Open
